@@ -345,6 +345,14 @@ func (ex *Exec) initIntrinsics() {
 		return nil
 	}
 	in["(*sync.WaitGroup).Wait"] = func(ex *Exec, st *State, args []Value, site ssa.CallInstruction) Value {
+		if len(st.pendingGo) > 0 {
+			k := "wg:" + ptrKey(args[0].(Ptr))
+			if cur, _ := st.ghost[k].(*Term); cur != nil && cur.IsConst() && int64(cur.V) > 0 {
+				// wait for the deferred goroutines
+				ex.runPendingGo(st)
+				return pushed{}
+			}
+		}
 		st.events = append(st.events, Event{Kind: "wg.wait", Args: []Value{args[0]}})
 		return nil
 	}
@@ -646,5 +654,8 @@ func (ex *Exec) callNative(st *State, fn FuncV, args []Value, site ssa.CallInstr
 
 // nativeReturn handles returns from frames pushed by intrinsics with a continuation tag.
 func (ex *Exec) nativeReturn(st *State, caller *Frame, fr *Frame, res Value) {
+	if fr.Native == "goresume" {
+		return // a deferred goroutine finished: the interrupted instruction of the frame below runs again
+	}
 	unsupported("native continuation %s", fr.Native)
 }
